@@ -423,7 +423,7 @@ def run_reread(chk, wd):
     for label, steps in seqs:
         rr.sequence([rr.base + c15_gen.render(x) for x in steps], label)
         chk.dist('sequence:scripted')
-    for i in range(60 if quick else 1500):
+    for i in range(60 if quick else 1000):
         steps, labels = c15_gen.random_chain(rng, rng.choice([2, 2, 3]))
         rr.sequence([rr.base + c15_gen.render(x) for x in steps], 'seq:random:' + '+'.join(labels))
         chk.dist('sequence:random')
@@ -465,7 +465,7 @@ def run_reread(chk, wd):
             f['label'] = 'events-order'
             rr.violation(f)
     # random pairs
-    nrand = 400 if quick else 6000
+    nrand = 400 if quick else 4000
     for i in range(nrand):
         old, new, edits = c15_gen.random_pair(rng)
         rr.case(old, new, 'random:%s' % '+'.join(edits))
@@ -952,7 +952,7 @@ def run_update(chk, wd):
                 import traceback
                 up.violation({'kind': '%s escaped from the implementation during reread over a running daemon' % type(e).__name__,
                               'scenario': sc, 'traceback': traceback.format_exc()[-3000:]})
-    nrand = 120 if chk.tier == 'quick' else 3000
+    nrand = 120 if chk.tier == 'quick' else 2500
     for i in range(nrand):
         guarded(c15_gen.random_update_scenario(chk.rng), chk.seed + 1000 + i)
     up.b.flush()
